@@ -74,7 +74,78 @@ def work(tier, seed):
     P, Q = b["scores_max"]
     for bl in ot.order_types(P, Q):
         items.append({"kind": "scores", "blocks": [list(x) for x in bl]})
+    # long curves: samples x targets beyond 2^22 (and 2^23), one crossing in every segment or at chosen segments
+    for spec in LONG_CURVES if tier == "quick" else LONG_CURVES + LONG_CURVES_THOROUGH:
+        items.append({"kind": "long_curve", "spec": spec})
     return items
+
+
+LONG_CURVES = [{"n": 2100, "targets": "every-segment"}, {"n": 3000, "targets": "every-segment"},
+               {"n": 70001, "targets": "near-powers-of-two", "t": 64}, {"n": 2 ** 22 + 5, "targets": "near-powers-of-two", "t": 1},
+               {"n": 2 ** 21 + 9, "targets": "near-powers-of-two", "t": 2}, {"n": 1500, "targets": "zigzag", "t": 3000}]
+LONG_CURVES_THOROUGH = [{"n": 4200, "targets": "every-segment"}, {"n": 300001, "targets": "near-powers-of-two", "t": 16},
+                        {"n": 2 ** 23 + 3, "targets": "near-powers-of-two", "t": 1}]
+
+
+def _run_long_curve(item, ctx):
+    from score_analysis.utils import invert_pl_function
+
+    spec = item["spec"]
+    n = spec["n"]
+    x = np.arange(n, dtype=float) * 0.5 + (np.arange(n) % 3) * 0.125  # strictly increasing, irregular spacing
+    case = {"kind": "long_curve", **spec}
+    ctx.state()
+    if spec["targets"] == "zigzag":
+        # y alternates 0,1,0,1..: every target in (0,1) is crossed in every segment
+        y = (np.arange(n) % 2).astype(float)
+        T = spec["t"]
+        targets = np.array([(k + 0.5) / T for k in range(T)])
+        ok, res = guarded(ctx, "long-call", case, invert_pl_function, x, y, targets)
+        ctx.tick(T)
+        if ok:
+            for k in (0, 1, T // 2, T - 1):
+                sol = np.asarray(res[k], dtype=float)
+                t = targets[k]
+                want = np.where(y[:-1] == 0, x[:-1] + t * (x[1:] - x[:-1]), x[:-1] + (1 - t) * (x[1:] - x[:-1]))
+                ctx.nontrivial()
+                if sol.shape != want.shape or not np.allclose(sol, want, rtol=1e-12, atol=0):
+                    ctx.fail("strict-crossing-reported", dict(case, t=float(t)), observed={"solutions": int(sol.size)}, expected={"solutions": int(want.size)})
+                    break
+        ctx.sample(case)
+        return None
+    y = np.arange(n, dtype=float)  # increasing: the target j + 0.5 is crossed in segment j only
+    if spec["targets"] == "every-segment":
+        segs = np.arange(n - 1)
+    else:
+        near = set()
+        k = 2
+        while k < n:
+            near.update(j for j in (k - 2, k - 1, k, k + 1) if 0 <= j < n - 1)
+            k *= 2
+        for blk in (1998, 4096, 65536 // 3, (2 ** 22) // 3):
+            near.update(j for m in range(1, 4) for j in (m * blk - 1, m * blk) if 0 <= j < n - 1)
+        segs = np.array(sorted(near))
+        T = spec["t"]
+        # keep T targets: the ones nearest to the largest powers of two first
+        pref = [j for p2 in (2 ** 22, 2 ** 21, 2 ** 23, 2 ** 16, 2 ** 20, 2 ** 18, 2 ** 15) for j in (p2 - 1, p2, p2 - 2) if j in near]
+        rest = [j for j in sorted(near, reverse=True) if j not in pref]
+        segs = np.array(sorted((pref + rest)[:T]))
+    targets = segs + 0.5
+    ok, res = guarded(ctx, "long-call", case, invert_pl_function, x, y, targets)
+    ctx.tick(len(targets))
+    if ok:
+        if len(res) != len(targets):
+            ctx.fail("one-entry-per-target", case, observed=len(res), expected=len(targets))
+        else:
+            for j, sol in zip(segs.tolist(), res):
+                sol = np.asarray(sol, dtype=float).reshape(-1)
+                want = (x[j] + x[j + 1]) / 2
+                ctx.nontrivial()
+                if sol.size != 1 or abs(sol[0] - want) > 1e-9 * max(1.0, abs(want)):
+                    ctx.fail("strict-crossing-reported", dict(case, segment=j, t=j + 0.5), observed=sol[:3], expected=want)
+                    break
+    ctx.sample(dict(case, segments_tested=int(len(segs))))
+    return None
 
 
 def pl_values(x, y, s):
@@ -98,7 +169,7 @@ def judge(ctx, case, x, y, t, sol, snippet=None):
         return
     if any(b_ <= a_ for a_, b_ in zip(sol, sol[1:])):
         ctx.fail("strictly-increasing", case, observed=sol, expected="strictly increasing", snippet=snippet)
-    tol_x = 1e-9 * max(1.0, abs(x[0]), abs(x[-1]))
+    tol_x = 1e-9 * (max(abs(x[0]), abs(x[-1])) or 1.0)  # relative to the magnitude of the sample points (tiny scales too)
     if any(not (x[0] - tol_x <= s <= x[-1] + tol_x) for s in sol):
         ctx.fail("inside-sampled-range", case, observed=sol, expected=[x[0], x[-1]], snippet=snippet)
         return
@@ -131,6 +202,8 @@ def run(item, ctx, tier, seed):
     from score_analysis.utils import invert_pl_function
 
     b = bounds(tier)
+    if item["kind"] == "long_curve":
+        return _run_long_curve(item, ctx)
     if item["kind"] == "curves":
         cs = curves(b["max_len"])[item["part"]::item["parts"]]
         for x, y in cs:
@@ -186,8 +259,11 @@ def run(item, ctx, tier, seed):
         return None
     # ------------------------------------------------------------------ Scores.threshold_at_metric
     blocks = [tuple(v) for v in item["blocks"]]
-    for grid in ("irregular", "int", "unit"):
-        pos, neg, vals = ot.concretise(blocks, grid, seed)
+    for grid in ("irregular", "int", "unit", "tiny"):
+        pos, neg, vals = ot.concretise(blocks, "irregular" if grid == "tiny" else grid, seed)
+        if grid == "tiny":
+            # likelihood-like scores: the whole data set lives on a 1e-18 scale (exact scaling by a power of two)
+            pos, neg, vals = [v * 2.0 ** -60 for v in pos], [v * 2.0 ** -60 for v in neg], [v * 2.0 ** -60 for v in vals]
         if grid == "unit":
             # scores in [0,1] whose largest value is 1.0 exactly: whether an evenly spaced grid of k points
             # ends exactly on the largest score depends on k
@@ -197,7 +273,7 @@ def run(item, ctx, tier, seed):
             mp = {v: (i / (m_ - 1)) for i, v in enumerate(vals)}
             pos, neg, vals = [mp[v] for v in pos], [mp[v] for v in neg], [mp[v] for v in vals]
         distinct = len(vals)
-        for cfg in ot.CFGS[:2] if grid == "int" else ot.CFGS:
+        for cfg in ot.CFGS[:2] if grid in ("int", "tiny") else ot.CFGS:
             sc, ec = cfg
             s = Scores(pos[::-1], neg[::-1], score_class=sc, equal_class=ec)
             ctx.state()
@@ -221,7 +297,8 @@ def run(item, ctx, tier, seed):
                     elif pt == "array":
                         if not vals:
                             continue
-                        xs = [float(vals[0]) - 1.0, float(vals[0]), float(vals[-1]) + 0.5, float(vals[-1]) + 2.0]
+                        u_ = 2.0 ** -60 if grid == "tiny" else 1.0
+                        xs = [float(vals[0]) - 1.0 * u_, float(vals[0]), float(vals[-1]) + 0.5 * u_, float(vals[-1]) + 2.0 * u_]
                         xs = sorted(set(xs))
                         points, expect_err = np.array(xs), False
                     else:
@@ -258,14 +335,13 @@ def run(item, ctx, tier, seed):
                         continue
                     if points_before is not None:
                         # the caller post-processes the returned thresholds in place; its points array must not move
+                        saved = [np.array(r_, copy=True) if isinstance(r_, np.ndarray) else r_ for r_ in res]
                         for r_ in res:
                             if isinstance(r_, np.ndarray) and r_.flags.writeable:
                                 r_ += 1000.0
                         if not np.array_equal(points, points_before):
                             ctx.fail("results-do-not-alias-supplied-points", case, observed=points, expected=points_before)
-                        for r_ in res:
-                            if isinstance(r_, np.ndarray) and r_.flags.writeable:
-                                r_ -= 1000.0
+                        res = saved  # (restoring by subtraction would round tiny values away)
                     for t, sol in zip(targets, res):
                         ctx.tick()
                         if min(ya) <= t <= max(ya):
